@@ -43,7 +43,9 @@ pub struct C10 {
 }
 
 const STARTS: [u64; 7] = [0x0, 0xFF8, 0x1000, 0x1008, 0x1010, 0x1020, 0x2000];
-const LENS: [u64; 6] = [0, 1, 8, 0x10, 0x20, 0x30];
+// 9 = one byte more than the distance between neighbouring starts (0xFF8 -> 0x1000, 0x1008 ->
+// 0x1010): the new area's LAST byte is the neighbour's first, an overlap of exactly one byte
+const LENS: [u64; 7] = [0, 1, 8, 9, 0x10, 0x20, 0x30];
 
 fn overlaps(a: u64, alen: u64, b: u64, blen: u64) -> bool {
     if alen == 0 || blen == 0 {
@@ -194,7 +196,7 @@ impl Spec for C10 {
         }
         let nc = m.non_code();
         for (n, _k) in nc.iter().enumerate().take(4) {
-            for new in [0u64, 1, 8, 0x10, 0x18, 0x30] {
+            for new in [0u64, 1, 8, 9, 0x10, 0x18, 0x30] {
                 ops.push(Op::Resize { which: n, new });
             }
             for prot in [0u32, 1, 3, 7] {
@@ -521,7 +523,7 @@ pub fn run(tier: Tier) -> i32 {
     }
     let depth = if tier.is_thorough() { 3 } else { 2 };
     let out = run_stexp(Arc::clone(&spec), depth, crate::common::ncpu(), 1 << 30, if tier.is_thorough() { 1500 } else { 45 });
-    st_evidence(&mut run, &out, depth, "mem_init_area / mem_init_zero (7 starts x 6 lengths incl. 0, before/inside/enclosing/abutting), mem_init_zero_anywhere (4 lengths), mem_init_anywhere (3), init_stack (3), mem_resize_section (first 4 non-code areas + absent x 6 sizes), mem_prot (4 masks + invalid), brk(0)/brk(+0x10)/brk(+0x1000) as guest syscalls; 5 initial machines (code at 0x1000 / 0x3000 / 0x400000, generated two-segment ELF, same after init_stack_program_start)");
+    st_evidence(&mut run, &out, depth, "mem_init_area / mem_init_zero (7 starts x 7 lengths incl. 0, before/inside/enclosing/abutting/overlapping by exactly one byte), mem_init_zero_anywhere (4 lengths), mem_init_anywhere (3), init_stack (3), mem_resize_section (first 4 non-code areas + absent x 7 sizes), mem_prot (4 masks + invalid), brk(0)/brk(+0x10)/brk(+0x1000) as guest syscalls; 5 initial machines (code at 0x1000 / 0x3000 / 0x400000, generated two-segment ELF, same after init_stack_program_start)");
     run.cov("initial_machines", json!(spec.inits().iter().map(|i| i.0.clone()).collect::<Vec<_>>()));
     run.guard("states", out.states >= 500, format!("{} states", out.states));
     run.guard("initial-machines", spec.inits().len() >= 4, format!("{} initial machines", spec.inits().len()));
